@@ -9,6 +9,7 @@ C04 — property theorems. Statement of the property:
 import CweModel.C04.Model
 import CweModel.C04.Bounds
 import CweModel.C04.Intersect
+import CweModel.C04.DataProps
 
 namespace CweModel.C04
 open CweModel.Itv
